@@ -80,11 +80,23 @@ def run(tier, seed):
     collect(PROP, res, rd, ["FlushAckComplete"], viol, cst)
     cov["ack_flush_schedules"] = cst["schedules"]
     viol = mc_viol + viol
+    # story: a key is deleted while the write-behind worker has its FIRST write in hand (sector not yet published):
+    # the extent that write lands in must end up owned by nobody's index entry AND be retired - a deleted key that is
+    # back after the clean reopen is an extent that was neither freed nor owned by a live record
+    import seqengine as _sq
+    _sv, _sn, _sst = _sq.run_stories(PROP, fxv, rd, "inflightstory", 2 if tier == "quick" else 10,
+                                     "blocks owned by a record that is no longer indexed (deleted while its first write was in flight): "
+                                     "never freed, the key is back after the reopen")
+    viol = viol + _sv
+    cov["inflight_stories"] = _sn
     return {"level": "model_checking", "coverage": cov, "violations": viol,
             "assumptions": ["snapshot accessor (hook) exposes live records' sector/length and the free runs"]}
 
 
 def replay(path):
+    import seqengine as _sq
+    if _sq.is_story(path):
+        return _sq.replay_story(PROP, path)
     if os.path.basename(path).startswith("ackflush_"):
         import concengine as cc
         r = cc.validate(v.run_dir("c05_replay"), path, ["FlushAckComplete"])
